@@ -135,6 +135,26 @@ def check_config(cfg, acc):
             except Exception as e:  # noqa: BLE001
                 viol("exception", "correlated:" + type(e).__name__, repr(e)[:200], "momentum",
                      coeff=c)
+        # the coefficient is a public attribute: changing it on an existing transition must give
+        # the same update as a freshly constructed transition
+        for c0, c1 in ((0.2, 0.9), (1.0, 0.5), (0.0, 0.6), (0.7, 1.0), (0.4, 0.0)):
+            acc.count("evaluations")
+            try:
+                tr = CorrelatedMomentumTransition(S, c0)
+                tr.sample(zoo.mk_state(q, p0.copy()), BasisRng(np.zeros(d)))
+                tr.mom_resample_coeff = c1
+                z = np.array([0.7, -1.3, 0.4])[:d]
+                out, _ = tr.sample(zoo.mk_state(q, p0.copy()), BasisRng(z))
+                fresh, _ = CorrelatedMomentumTransition(S, c1).sample(
+                    zoo.mk_state(q, p0.copy()), BasisRng(z))
+                if not np.array_equal(out.mom, fresh.mom):
+                    viol("reduction", "coefficient_changed_after_construction", out.mom,
+                         fresh.mom, coeffs=[c0, c1], state=si)
+                    break
+            except Exception as e:  # noqa: BLE001
+                viol("exception", "correlated:" + type(e).__name__, repr(e)[:200], "momentum",
+                     coeffs=[c0, c1])
+                break
     acc.count("cases")
     if len(acc.samples) < 3:
         acc.sample({"config": cfg, "coeffs": COEFFS})
